@@ -2147,6 +2147,13 @@ int EGLPNUM_TYPENAME_ILLlib_chgsense (
 			ILL_CLEANUP;
 		}
 	}
+	/* the sign of the logical changes in the column copy of the matrix: a row
+	 * copy left behind by the file readers would keep the old one */
+	if (qslp->rA)
+	{
+		EGLPNUM_TYPENAME_ILLlp_rows_clear (qslp->rA);
+		ILL_IFFREE(qslp->rA);
+	}
 	for (i = 0; i < num; i++)
 	{
 		j = qslp->rowmap[rowlist[i]];
